@@ -54,10 +54,10 @@ class C03(DevProp):
         CHOFF = [0, 15, 9, 4]
         TARGET = 1      # the channel index on which the keys of "channel-distinct" meet: base = (TARGET - offset) mod 16 = 1, 2, 8, 13
         for cmode in devgen.CMODES:
-            for variant in ("direct", "zero", "offset", "transpose", "transpose-distinct", "channel-distinct"):
+            for variant in ("direct", "zero", "offset", "transpose", "transpose-distinct", "channel-distinct", "stale-release"):
                 midi = []
                 for i, c in enumerate(codes):
-                    if variant == "direct":
+                    if variant in ("direct", "stale-release"):
                         midi.append({"sub": "", "code": c, "note": 60, "off": 0})
                     elif variant == "zero":   # note 0 on channel index 0: the pair whose encoding is a zero value
                         midi.append({"sub": "", "code": c, "note": 0, "off": 0})
@@ -71,9 +71,15 @@ class C03(DevProp):
                     else:   # no two keys share a note statically: collisions exist only through transposition between presses
                         midi.append({"sub": "", "code": c, "note": 60 - 12 * SHIFT[i], "off": 0})
                 midi.append({"sub": "", "code": 40, "note": 61, "off": 0})
-                cfg = {"mappings": [{"name": "M0", "midi": midi, "analog": [], "dz": [], "defdz": [], "subs": []}],
+                maps = [{"name": "M0", "midi": midi, "analog": [], "dz": [], "defdz": [], "subs": []}]
+                if variant == "stale-release":
+                    # a second mapping that lacks the first two keys: after a switch with everything held their releases go through the
+                    # "key unmapped after a mapping change" path, the others through the ordinary one; same rule: one Note Off, at the last release
+                    maps.append({"name": "M1", "midi": [kk for kk in midi if kk["code"] not in codes[:2]], "analog": [], "dz": [], "defdz": [], "subs": []})
+                cfg = {"mappings": maps,
                        "actions": [{"code": 59, "action": "octave_up"}, {"code": 60, "action": "octave_down"},
-                                   {"code": 61, "action": "channel_up"}, {"code": 62, "action": "channel_down"}],
+                                   {"code": 61, "action": "channel_up"}, {"code": 62, "action": "channel_down"}, {"code": 65, "action": "mapping_up"},
+                                   {"code": 66, "action": "mapping_down"}],
                        "exitseq": [], "cmode": cmode, "octave": 0, "semitone": 0, "channel": 1, "mapping": 0, "velocity": 64}
                 for n in (2, 3, 4):
                     eps = episodes(n)
@@ -83,7 +89,10 @@ class C03(DevProp):
                         ev = []
                         octave = 0
                         base = 0
+                        pressed = 0
                         for (i, v) in ep:
+                            if variant == "stale-release" and v == 1:
+                                pressed += 1
                             if variant == "channel-distinct" and v == 1:
                                 want = (TARGET - CHOFF[i]) % 16
                                 while base < want:
@@ -101,6 +110,8 @@ class C03(DevProp):
                                     ev += [k(60, 1), k(60, 0)]
                                     octave -= 1
                             ev.append(k(codes[i], v))
+                            if variant == "stale-release" and v == 1 and pressed == 2:
+                                ev += [k(65, 1), k(65, 0)]          # switch with two holders down (further presses happen in M1 if still mapped)
                             if len(ev) % 5 == 0:
                                 ev += [k(40, 1), k(40, 0)]
                         cases.append({"cfg": cfg, "abs": [], "events": ev, "tag": "episode-%d-%s" % (n, variant)})
